@@ -65,7 +65,7 @@ theorem held_length_le : ∀ (l : List Job), (∀ j ∈ l, JobOk j) → ((held l
       exact absurd (List.mem_append.mpr (Or.inl h0mem)) h0
 
 /-- **an idle ensemble exists when a worker is started** (workers ≤ ensembles − 1) -/
-theorem start_has_idle_slot {y : Sys} (hi : Inv y) (hw : y.s.workers + 2 ≤ y.s.n)
+theorem start_has_idle_slot {y : Sys} (hi : InvR y) (hw : y.s.workers + 2 ≤ y.s.n)
     (hto : 1 ≤ y.s.toinitiate) : ∃ i : Nat, y.s.locks[i]? = some false := by
   have htole := hi.tole
   -- 1. at most `workers - 1` jobs in flight
